@@ -44,7 +44,11 @@ Inductive call :=
 | PutComment (k : key) (c : str)  (* INSERT INTO d.information_schema._fs_tables_ext ... ON CONFLICT DO UPDATE *)
 | InsertRow (k : key) (v : Z)
 | ReadTable (k : key)
-| ReadMeta (k : key).           (* information_schema.tables joined with _fs_tables_ext: (exists, comment) *)
+| ReadMeta (k : key)            (* information_schema.tables joined with _fs_tables_ext: (exists, comment) *)
+| TxBegin                       (* BEGIN: later statements of the session are pending until COMMIT *)
+| TxStage (k : key) (v : Z)     (* an INSERT inside the open transaction: nothing reaches the shared/durable state *)
+| CommitRows (k : key) (vs : list Z)   (* COMMIT: all pending rows become durable and visible in one call *)
+| TxRollback.
 
 Inductive ans := ABool (b : bool) | AOk | AErr (code : Z) | ARows (l : list Z) | AMeta (ex : bool) (c : option str).
 
@@ -80,6 +84,12 @@ Definition exec (e : eng) (c : call) : eng * ans :=
                      end
   | ReadTable k => match klook (tbls e) k with Some rows => (e, ARows rows) | None => (e, AErr (if has_db e (kd k) then 2003 else 2043)) end
   | ReadMeta k => (e, AMeta (match klook (tbls e) k with Some _ => true | None => false end) (klook (cmts e) k))
+  | TxBegin | TxRollback => (e, AOk)
+  | TxStage k v => match klook (tbls e) k with Some _ => (e, AOk) | None => (e, AErr (if has_db e (kd k) then 2003 else 2043)) end
+  | CommitRows k vs => match klook (tbls e) k with
+                       | Some rows => ({| dbs := dbs e; schs := schs e; tbls := kput (tbls e) k (rows ++ vs); cmts := cmts e |}, AOk)
+                       | None => (e, AOk)
+                       end
   end.
 
 (* ---- operations as automata: pc -> next call; (pc, answer) -> next pc.  fetch = None: finished *)
@@ -89,7 +99,8 @@ Inductive op :=
 | CreateTable (k : key) (c : option str)   (* with COMMENT: DDL call, then side-table call *)
 | Insert (k : key) (v : Z)
 | Read (k : key)
-| Meta (k : key).
+| Meta (k : key)
+| TxInserts (k : key) (vs : list Z) (commit : bool).   (* BEGIN; INSERT each of vs; COMMIT | leave open / ROLLBACK *)
 
 Definition fetch (o : op) (pc : nat) : option call :=
   match o, pc with
@@ -110,6 +121,12 @@ Definition fetch (o : op) (pc : nat) : option call :=
   | Insert k v, 0 => Some (InsertRow k v)
   | Read k, 0 => Some (ReadTable k)
   | Meta k, 0 => Some (ReadMeta k)
+  | TxInserts k vs commit, 0 => Some TxBegin
+  | TxInserts k vs commit, S i =>
+      match nth_error vs i with
+      | Some v => Some (TxStage k v)
+      | None => if Nat.eqb i (length vs) then Some (if commit then CommitRows k vs else TxRollback) else None
+      end
   | _, _ => None
   end%nat.
 
@@ -136,6 +153,7 @@ Definition advance (o : op) (pc : nat) (a : ans) : nat :=
   | Connect _ _, 8, _ => fin
   | CreateDb _, 0, _ => 1
   | CreateTable _ (Some _), 0, _ => 1
+  | TxInserts _ vs _, p, _ => if Nat.leb p (length vs) then S p else fin
   | _, _, _ => fin
   end%nat.
 
@@ -225,6 +243,7 @@ Definition dec_op (x : sexp) : option op :=
   | L [A 3; k; A v] => option_map (fun k => Insert k v) (dec_key k)
   | L [A 4; k] => option_map Read (dec_key k)
   | L [A 5; k] => option_map Meta (dec_key k)
+  | L [A 6; k; vs; c] => match dec_key k, dec_list dec_z vs, dec_bool c with Some k, Some vs, Some c => Some (TxInserts k vs c) | _, _, _ => None end
   | _ => None
   end.
 Definition enc_ans (a : ans) : sexp :=
@@ -234,7 +253,8 @@ Definition enc_ans (a : ans) : sexp :=
   end.
 Definition call_class (c : call) : Z :=
   match c with QDb _ => 0 | QSchema _ _ => 1 | Attach _ => 2 | Boot _ => 3 | MkSchema _ _ => 4 | SetSchema _ _ => 5
-             | MkTable _ => 6 | PutComment _ _ => 7 | InsertRow _ _ => 8 | ReadTable _ => 9 | ReadMeta _ => 10 end.
+             | MkTable _ => 6 | PutComment _ _ => 7 | InsertRow _ _ => 8 | ReadTable _ => 9 | ReadMeta _ => 10
+             | TxBegin => 11 | TxStage _ _ => 8 | CommitRows _ _ => 12 | TxRollback => 13 end.
 Definition enc_eng (e : eng) : sexp :=
   L [enc_list (fun p => L [enc_str (fst p); enc_bool (snd p)]) (dbs e);
      enc_list (enc_list enc_str) (schs e);
